@@ -224,6 +224,43 @@ pub proof fn lemma_pst13_complete(ck: &CommitterKey, vk: &VerifierKey, g: FS, gm
     ensures
         pair(pst_inner(vk, pst_cacc(cs, s0, ps.len()), pst_vacc(vs, s0, ps.len()), pr), vk.h@) == pst_rhs(vk, pr.w@, point, pr.w@.len()),   // name=pst13.complete.honest_proof_satisfies_the_verifiers_pairing_equation props=C01,C15
 { lemma_pst13_complete_alg(ck, vk, g, gm, hh, beta, ps, cs, sts, vs, point, s0, pr, p, r, ws, hws); }
+// ---- truthful degree reports (PCUniversalParams / PCCommitterKey / PCVerifierKey impls) ----
+impl UniversalParams {
+//@fn id=pst13.UniversalParams.max_degree file=poly-commit/src/marlin/marlin_pst13_pc/data_structures.rs scope="impl<E, P> PCUniversalParams for UniversalParams<E, P>" name=max_degree props=C09
+    pub fn max_degree(&self) -> (r: usize)
+    ensures
+        r == self.max_degree,   // name=pst13.UniversalParams.max_degree.truthful props=C09
+//@body
+//@end
+}
+impl CommitterKey {
+//@fn id=pst13.CommitterKey.max_degree file=poly-commit/src/marlin/marlin_pst13_pc/data_structures.rs scope="impl<E, P> PCCommitterKey for CommitterKey<E, P>" name=max_degree props=C09
+    pub fn max_degree(&self) -> (r: usize)
+    ensures
+        r == self.max_degree,   // name=pst13.CommitterKey.max_degree.truthful props=C09
+//@body
+//@end
+//@fn id=pst13.CommitterKey.supported_degree file=poly-commit/src/marlin/marlin_pst13_pc/data_structures.rs scope="impl<E, P> PCCommitterKey for CommitterKey<E, P>" name=supported_degree props=C09
+    pub fn supported_degree(&self) -> (r: usize)
+    ensures
+        r == self.supported_degree,   // name=pst13.CommitterKey.supported_degree.truthful props=C09
+//@body
+//@end
+}
+impl VerifierKey {
+//@fn id=pst13.VerifierKey.max_degree file=poly-commit/src/marlin/marlin_pst13_pc/data_structures.rs scope="impl<E: Pairing> PCVerifierKey for VerifierKey<E>" name=max_degree props=C09
+    pub fn max_degree(&self) -> (r: usize)
+    ensures
+        r == self.max_degree,   // name=pst13.VerifierKey.max_degree.truthful props=C09
+//@body
+//@end
+//@fn id=pst13.VerifierKey.supported_degree file=poly-commit/src/marlin/marlin_pst13_pc/data_structures.rs scope="impl<E: Pairing> PCVerifierKey for VerifierKey<E>" name=supported_degree props=C09
+    pub fn supported_degree(&self) -> (r: usize)
+    ensures
+        r == self.supported_degree,   // name=pst13.VerifierKey.supported_degree.truthful props=C09
+//@body
+//@end
+}
 pub struct MarlinPST13;
 impl MarlinPST13 {
 //@fn id=pst13.check_degrees_and_bounds file=poly-commit/src/marlin/marlin_pst13_pc/mod.rs scope="impl<E: Pairing, P: DenseMVPolynomial<E::ScalarField>> MarlinPST13<E, P>" name=check_degrees_and_bounds props=C17
